@@ -14,6 +14,7 @@ from functools import partial
 import numpy as np
 from hypothesis import strategies as st
 
+from .. import models
 from ..core import CaseResult, Part, Violation, must_not_raise, soft, time_limit
 from ..runner import Check
 
@@ -338,6 +339,118 @@ def run_case(case):
         shutil.rmtree(tmp, ignore_errors=True)
 
 
+# ------------------------------------------------------------------ SMC over a pool
+
+def strat_smc(tier):
+    from . import c04
+    cfg = st.tuples(st.integers(3, 8),
+                    st.one_of(st.tuples(st.just('thresholds'), st.lists(st.integers(30, 70), min_size=1, max_size=2)),
+                              st.tuples(st.just('quantiles'), st.lists(st.sampled_from([0.5, 0.7]), min_size=1, max_size=2))))
+    return st.fixed_dictionaries({
+        'model': models.model_desc().map(lambda d: c04._cont(dict(d, infcut=None, vec_summary=False, kind='float' if d['kind'] == 'coarse' else d['kind']))),
+        'bs': st.integers(1, 6), 'seed': st.integers(0, 2 ** 32 - 1), 'disk': st.booleans(),
+        'stored': st.sampled_from(['sim', 'sim+summaries', 'summaries', 'sim+d']), 'store_params': st.booleans(),
+        'configs': st.lists(cfg, min_size=1, max_size=2),
+        # every run uses one of the (at most two) configurations: repeats of the same configuration are the common case
+        'runs': st.lists(st.tuples(st.sampled_from([0, 0, 0, 1]), st.booleans()), min_size=2, max_size=4),
+    })
+
+
+def run_smc(case):
+    """SMC (whose later batches depend on the earlier populations) filling and re-using a pool."""
+    import elfi
+    from . import c04
+    desc, bs, seed = case['model'], case['bs'], case['seed']
+    w = desc['width']
+    sums = ['s%d' % c for c in range(w)]
+    stored = {'sim': ['S'], 'sim+summaries': ['S'] + sums, 'summaries': sums, 'sim+d': ['S', 'd']}[case['stored']]
+    if case['store_params']:
+        stored = stored + sorted(desc['pnames'])
+    ctx = 'stored=%r disk=%r bs=%d seed=%d configs=%r runs=%r model=%r' % (stored, case['disk'], bs, seed, case['configs'], case['runs'], desc)
+    fin = c04.pilot(desc, seed)
+    if len(fin) < 30:
+        return CaseResult(['pilot-degenerate'], None)
+    pick = lambda pct: float(fin[min(len(fin) - 1, int(len(fin) * pct / 100.0))])
+
+    def objective(ci):
+        n, (kind, val) = case['configs'][ci % len(case['configs'])]
+        return n, ({'thresholds': sorted((pick(v) for v in val), reverse=True)} if kind == 'thresholds' else {'quantiles': list(val)})
+
+    tmp = tempfile.mkdtemp(prefix='c05s-', dir=os.environ.get('VERIF_TMP'))
+    known, labels = [], ['disk' if case['disk'] else 'memory', 'stored=' + case['stored']]
+    pool = None
+    nontrivial = None
+    try:
+        with must_not_raise(P, 'creating the pool; ' + ctx):
+            pool = (elfi.ArrayPool if case['disk'] else elfi.OutputPool)(list(stored), name='p', prefix=tmp)
+        models.reset()
+        mp, _ = models.build(desc, name='pooled')
+        seen_cfgs = []
+        nheld = 0
+        for ri, (ci, reopen) in enumerate(case['runs']):
+            n, objkw = objective(ci)
+            cfgkey = (n, repr(objkw))
+            rctx = 'run %d: SMC.sample(%d, %r); %s' % (ri, n, objkw, ctx)
+            # reference: the same seeded run without a pool, on a fresh model
+            models.reset()
+            with must_not_raise(P, 'pool-free reference run; ' + rctx):
+                mr, _ = models.build(desc, name='ref%d' % ri)
+                with time_limit(120, 'C05:run-hangs', 'SMC without a pool'):
+                    ref = elfi.SMC(mr['d'], batch_size=bs, seed=seed, output_names=['rid']).sample(n, bar=False, **objkw)
+            ref_f = c04._fields(ref)
+            if case['disk'] and reopen and ri > 0:
+                with must_not_raise(P, 'close + reopen of the on-disk pool; ' + rctx):
+                    pool.close()
+                    pool = elfi.ArrayPool.open('p', prefix=tmp)
+                labels.append('reopened')
+            held_before = set(b for b in range(nheld + 2) if all((st_ is not None and b in st_) for st_ in pool.stores.values()))
+            models.reset()
+            with must_not_raise(P, 'run with the pool; ' + rctx):
+                with time_limit(120, 'C05:run-hangs', 'SMC with a pool'):
+                    got = elfi.SMC(mp['d'], batch_size=bs, seed=seed, output_names=['rid'], pool=pool).sample(n, bar=False, **objkw)
+            ran = sorted(set(b for b, _, _ in models.LOG))
+            got_f = c04._fields(got)
+            other_before = any(k != cfgkey for k in seen_cfgs)
+            diff = [k for k in ref_f if k not in got_f or not _eq(ref_f[k], got_f[k])]
+            if diff:
+                msg = ('SMC with the pool differs from the same seeded SMC run without a pool in %r (%d batches held before the run; earlier '
+                       'configurations on this pool: %r); %s' % (diff[:6], len(held_before), seen_cfgs, rctx))
+                if other_before:
+                    # open finding D22: the pool is keyed by batch index, but the content of an SMC batch depends on the earlier populations
+                    soft(P, known, 'C05:smc-pool-reused-with-another-configuration', msg)
+                else:
+                    raise Violation('C05:smc-result-differs-from-pool-free-run', msg)
+            if 'S' in stored or all(x in stored for x in sums):
+                again = sorted(set(ran) & held_before)
+                if again:
+                    raise Violation('C05:stored-operation-invoked-again', 'the simulator ran again for batches %r which the pool held before the run; %s' % (again, rctx))
+            lens = {k: (len(v) if v is not None else 0) for k, v in pool.stores.items()}
+            nheld = max(nheld, int(got.n_batches))
+            if len(set(lens.values())) != 1 or list(lens.values())[0] != nheld:
+                raise Violation('C05:pool-does-not-hold-the-consumed-batches', 'after the run the stores hold %r batches, %d batches were consumed over this pool; %s' % (lens, nheld, rctx))
+            if held_before and not other_before:
+                nontrivial = True
+                labels.append('reuse-same-configuration')
+            if other_before:
+                labels.append('reuse-after-another-configuration')
+            seen_cfgs.append(cfgkey)
+        return CaseResult(sorted(set(labels)), nontrivial, known)
+    finally:
+        try:
+            if pool is not None:
+                for s_ in pool.stores.values():
+                    if hasattr(s_, 'close'):
+                        s_.close()
+        except Exception:
+            pass
+        shutil.rmtree(tmp, ignore_errors=True)
+
+
+def _eq(a, b):
+    a, b = np.asarray(a), np.asarray(b)
+    return a.shape == b.shape and np.array_equal(a, b, equal_nan=True)
+
+
 CHECK = Check(
     P, 'exploration',
     rule=('Hypothesis-generated histories of 2-7 operations over one pool (run with k batches, run with a partial last batch, fresh sampler '
@@ -345,7 +458,8 @@ CHECK = Check(
           'on-disk pool, attempts with a wrong batch_size / seed) x stored set = any non-empty subset of {simulator, noise simulator, '
           'summaries, discrepancy} optionally plus all parameters x in-memory / on-disk pools x models with an optional stochastic node '
           'that draws after the simulator. Non-trivial = a run that found at least one needed batch in the pool and needed at least one more.'),
-    parts=[Part('histories', run_case, strategy=strat, examples={'quick': 300, 'thorough': 12000})],
+    parts=[Part('histories', run_case, strategy=strat, examples={'quick': 300, 'thorough': 12000}),
+           Part('smc', run_smc, strategy=strat_smc, examples={'quick': 96, 'thorough': 2400}, shards={'quick': 8, 'thorough': 16})],
     assumptions=['Rejection with an n_sim objective drives the pool (batch counts are then a function of the configuration)',
                  'on-disk pools live in per-case temporary directories removed afterwards'],
     design_ref='DESIGN.md section 4, C05',
